@@ -11,11 +11,12 @@
    inputs in [2^-18, 2^18], up to 2^11 sources).  The mutual and in-leaf routines: their structure is characterised for EVERY arithmetic
    (C20_full_mutual_targets: the targets are computed exactly as by the one-sided routine; C20_full_mutual_sources /
    C20_inner_structure: every other particle is a left fold of in-place updates), and the same (n + 7) u / (n + 17) u bounds are proved
-   for them under the standard model (C20_mutual_error, C20_inner_error).
+   for them under the standard model (C20_mutual_error, C20_inner_error) and on the actual binary64 computation
+   (C20_sf_mutual_error, C20_sf_inner_error: SpecFloat instance, same input ranges, up to 2^26 particles).
    Axioms: classical reals of Coq's standard library (+ Classical_Prop.classic through Flocq). *)
 From Coq Require Import List Reals.
 From Flocq Require Import Core IEEE754.BinarySingleNaN.
-From Tbfmm Require Import Num.P2PDefs Num.P2PReal Num.P2PSF Num.P2PError Num.P2PError32 Num.P2PErrorSum Num.P2PErrorSum32 Num.P2PErrorMutual.
+From Tbfmm Require Import Num.P2PDefs Num.P2PReal Num.P2PSF Num.P2PError Num.P2PError32 Num.P2PErrorSum Num.P2PErrorSum32 Num.P2PErrorMutual Num.P2PErrorMutual64.
 Local Open Scope R_scope.
 
 (* one pair: potential kernel within 5 u, force components within 16 u (relative) *)
@@ -219,3 +220,31 @@ Theorem C20_inner_error : forall u, 0 <= u <= 1 / 1024 -> forall ar, std_model u
     acc_bound u (map fst (firstn i ps ++ skipn (S i) ps)) (fst (nth i ps dflt)) (nth i (inner R ar ps) (rhs0 R ar)).
 Proof. exact inner_error. Qed.
 Print Assumptions C20_inner_error.
+
+(* ---- the mutual and in-leaf routines on the ACTUAL binary64 computation (SpecFloat instance executed bit for bit against the C++):
+   every source and target of FullMutual, every particle of GenericInner, zero initial accumulators ---- *)
+Theorem C20_sf_mutual_error : forall (srcs tgts : list (part (binary_float 53 1024) * rhs (binary_float 53 1024))),
+  Forall (fun sr => snd sr = rhs0 _ b64_ops) srcs -> Forall (fun tr => snd tr = rhs0 _ b64_ops) tgts ->
+  Forall (fun sr => Forall (fun tr => b64_inputs_ok (fst sr) (fst tr)) tgts) srcs ->
+  (Z.of_nat (length tgts) <= 2 ^ 26)%Z -> (Z.of_nat (length srcs) <= 2 ^ 26)%Z ->
+  let res := full_mutual SpecFloat.spec_float (sf_ops 53 1024) (map sf_pr srcs) (map sf_pr tgts) in
+  Forall2 (fun sr sr' => fst sr' = sf_part (fst sr) /\ rhs_finite_sf (snd sr') /\
+            acc_bound (bpow radix2 (-53)) (map partR_of (map fst tgts)) (partR_of (fst sr)) (rhsR_of_sf (snd sr')))
+    srcs (fst res) /\
+  Forall2 (fun tr r' => rhs_finite_sf r' /\
+            acc_bound (bpow radix2 (-53)) (map partR_of (map fst srcs)) (partR_of (fst tr)) (rhsR_of_sf r'))
+    tgts (snd res).
+Proof. exact sf_mutual_error. Qed.
+Print Assumptions C20_sf_mutual_error.
+
+Theorem C20_sf_inner_error : forall (ps : list (part (binary_float 53 1024) * rhs (binary_float 53 1024))) (d : part (binary_float 53 1024) * rhs (binary_float 53 1024)),
+  ForallOrdPairs (fun a b => b64_inputs_ok (fst a) (fst b)) ps ->
+  Forall (fun pr => snd pr = rhs0 _ b64_ops) ps ->
+  (Z.of_nat (length ps) <= 2 ^ 26)%Z ->
+  forall i, (i < length ps)%nat ->
+    let r := nth i (inner SpecFloat.spec_float (sf_ops 53 1024) (map sf_pr ps)) (rhs0 SpecFloat.spec_float (sf_ops 53 1024)) in
+    rhs_finite_sf r /\
+    acc_bound (bpow radix2 (-53)) (map partR_of (map fst (firstn i ps ++ skipn (S i) ps)))
+      (partR_of (fst (nth i ps d))) (rhsR_of_sf r).
+Proof. exact sf_inner_error. Qed.
+Print Assumptions C20_sf_inner_error.
